@@ -153,6 +153,18 @@ class Harness:
                 v.append(("request_raised", f"handle_message raised {e!r}"))
             if sid in model:
                 model[sid]["last_activity"] = now
+        elif name == "notify":
+            sid = self.target(op[1])
+            msg = parse_message({"jsonrpc": "2.0", "method": op[2] if len(op) > 2 else "notifications/cancelled",
+                                 "params": {"requestId": 1}})
+            try:
+                r = self.loop.run_until_complete(self.handler.handle_message(msg, session_id=sid))
+                if r[0] is not None:
+                    v.append(("response_to_notification", f"notification answered with {r[0]!r}"))
+            except Exception as e:  # noqa
+                v.append(("request_raised", f"handle_message(notification) raised {e!r}"))
+            if sid in model:
+                model[sid]["last_activity"] = now
         elif name == "touch_meta":
             sid = self.target(op[1])
             rec = sm.get_session(sid)
@@ -204,7 +216,7 @@ class Harness:
 TARGETS = [0, 1, 2]
 OPS: List[Tuple] = ([("create",), ("list_mutate",), ("clear",), ("init",), ("get",)]
                     + [("update", t) for t in TARGETS] + [("delete", t) for t in TARGETS]
-                    + [("request", t) for t in TARGETS] + [("touch_meta", 0)]
+                    + [("request", t) for t in TARGETS] + [("touch_meta", 0), ("notify", 0)]
                     + [("cleanup", a) for a in (0, 1, 2)] + [("advance", d) for d in (1, 2, 0.5)])
 
 
@@ -293,13 +305,14 @@ def run(ctx):
     n_short, n_long = (3000, 60) if ctx.tier == "quick" else (60000, 2000)
     extra_ops = OPS + [("cleanup", None), ("advance", 3600), ("advance", 1800), ("advance", 0.25), ("advance", 1.5),
                        ("advance", 3600.5), ("request", 0, "tools/list"),
-                       ("init", "1999-01-01"), ("init", "2025-06-18"), ("update", 5), ("delete", 7), ("touch_meta", 1)]
+                       ("init", "1999-01-01"), ("init", "2025-06-18"), ("update", 5), ("delete", 7), ("touch_meta", 1),
+                       ("notify", 1), ("notify", 0, "notifications/initialized")]
     for k in range(n_short + n_long):
         L = rng.randint(4, 12) if k < n_short else 200
         seq = []
         for _ in range(L):
             op = rng.choice(extra_ops)
-            if op[0] in ("update", "delete", "request", "touch_meta") and rng.random() < 0.7:
+            if op[0] in ("update", "delete", "request", "touch_meta", "notify") and rng.random() < 0.7:
                 op = (op[0], rng.randint(0, 12)) + tuple(op[2:])
             seq.append(op)
         if not ctx.mine():
